@@ -288,6 +288,30 @@ pub fn run_case(prop: &str, sub: u64, histories: usize, scratch: &Path, acc: &mu
             report(acc, &case, &k0, &st, "path", &o, vs);
         }
     }
+    // special files: size 0 but content (procfs); a memory map is impossible
+    // there and the searcher must fall back to reading
+    if rng.chance(1, 300) {
+        for sp in ["/proc/version", "/proc/filesystems", "/proc/self/limits"] {
+            let Ok(data) = std::fs::read(sp) else { continue };
+            if data.is_empty() || data.contains(&0) {
+                continue;
+            }
+            let c2 = Case { data, pattern: ["o", "e", "^.", "[0-9]+"][rng.below(4)].to_string(), cfg: Cfg { term: Term::Lf, multi_line: false, stop_nm: false, ..case.cfg.clone() } };
+            if build_matcher(&c2).is_err() {
+                continue;
+            }
+            let r2 = run(&c2, &k0, &Strategy::Slice, None, None);
+            let m2 = model(&c2);
+            for mmap in [true, false] {
+                let st = Strategy::Special { path: sp.to_string(), mmap };
+                let o = run(&c2, &k0, &st, None, None);
+                acc.evals += 1;
+                acc.faults.inc("strategy:special-file(size 0 with content)");
+                let vs = judge(&c2, &k0, &st, &r2, &m2, &o);
+                report(acc, &c2, &k0, &st, "special-file", &o, vs);
+            }
+        }
+    }
     // heap limit: just sufficient must behave like unlimited; one byte less must fail cleanly
     if prop == "C02" && rng.chance(1, 10) && case.data.len() < 20_000 {
         heap_limit_leg(&case, &mut rng, &reference, sub, acc);
@@ -361,7 +385,7 @@ pub fn minimise(prop: &str, class: &str, case: &Case, knobs: &Knobs, strat: &Str
     let mut c = case.clone();
     let mut k = *knobs;
     let mut s = strat.clone();
-    if !still_fails(prop, class, &c, &k, &s, scratch) {
+    if matches!(s, Strategy::Special { .. }) || !still_fails(prop, class, &c, &k, &s, scratch) {
         return (c, k, s);
     }
     let mut budget = 400;
